@@ -128,6 +128,8 @@ type Ctx struct {
 	// shortCache: abstract shortest decimal per float term (models.go); forceIntText: bigText called by a model
 	shortCache   map[string]*shortDec
 	forceIntText bool
+	// skipModelFor: the next call of this function bypasses its model (set by a model that declines)
+	skipModelFor *ssa.Function
 	// numberTexts: first character term of a decimal text written by a model -> the text and its value
 	numberTexts map[*Term]numberText
 
